@@ -376,7 +376,7 @@ func prepareRPC(st *rpcState, cfg *ConfigPlan) {
 	cr := &ClientReq{
 		Form: cp.Form, HTTPMajor: cp.HTTP, Codec: cp.Codec, Compression: cp.Compression, AcceptComp: cp.Accept,
 		Timeout: cp.Timeout, AppHeaders: cp.Headers, HTTPMethod: cp.HTTPMethod, Path: cp.Path, RawQuery: cp.RawQuery,
-		ExtraHdrs: cp.ExtraHdrs, GetBase64: cp.GetBase64, ContentType: cp.ContentType,
+		ExtraHdrs: cp.ExtraHdrs, GetBase64: cp.GetBase64, ContentType: cp.ContentType, Spelling: cp.Spelling,
 	}
 	if cp.HasRawBody {
 		cr.RawBody = cp.RawBody
